@@ -101,8 +101,11 @@ def check_derive(case):
     pool.append(obj)
     labels.append(label)
 
+  calls = []
+
   def mkphase(k):
-    def body(test, **kw):
+    def body(test, x='declared-default', **kw):
+      calls.append((k, x, type(kw.get('pa')).__name__ if 'pa' in kw else None))
       return None
     body.__name__ = 'f%d' % k
     p = htf.PhaseDescriptor.wrap_or_copy(body)
@@ -201,8 +204,22 @@ def check_derive(case):
         if i in derived:
           flags['derive_then_execute'] = True
         t = htf.Test(runnable)
+        # what each function may be called with in this run: the x of a descriptor of that function in the executed tree
+        # (its with_args value, else the default the function declares) - whatever ran before, here or in other Tests
+        declared = {}
+        for ph in ([runnable] if is_phase else list(runnable.all_phases())):
+          declared.setdefault(getattr(ph.func, '__name__', '?'), set()).add(ph.extra_kwargs.get('x', 'declared-default'))
+        del calls[:]
         try:
           t.execute()
+          for fk, x, pa in calls:
+            if x not in declared.get('f%d' % fk, set()):
+              r.bad('C11/derive/phase-called-with-foreign-arguments', 'op %d: executing %s called f%d with x=%r; descriptors of f%d in this test declare %r' % (
+                  k, labels[i], fk, x, fk, sorted(map(repr, declared.get('f%d' % fk, set())))))
+              break
+            if pa not in (None, 'PlugA'):
+              r.bad('C11/derive/phase-called-with-foreign-plug', 'op %d: executing %s called f%d with pa=%s' % (k, labels[i], fk, pa))
+              break
         except Exception as e:  # pylint: disable=broad-except
           if type(e).__name__ not in ('DuplicateSubtestNamesError', 'DuplicateResultError', 'InvalidPlugError'):
             r.bad('C11/derive/execute-raised/%s' % type(e).__name__, 'op %d: %r' % (k, e))
